@@ -51,6 +51,17 @@ def check_ops(stats, ma, mb):
             raise violation(ID, "operators", f"op-neq-ctor:{sym}", case, f"a {sym} b != {tag}(a, b) for a = {M.text(ma)[:150]}, b = {M.text(mb)[:150]}")
         if ma[0] == tag or mb[0] == tag:
             nt = True
+    # the very same object on both sides: still exactly the constructor over (a, a)
+    for sym, tag, f in BINOPS:
+        out = lib.call(lambda: f(a, a))
+        want = expect_model(tag, ma, ma)
+        if out.kind != lib.EXPR or type(out.value).__name__ != tag or M.canon(to_model(out.value)) != M.canon(want):
+            raise violation(ID, "operators", f"op-same-object:{sym}", case,
+                            f"a {sym} a (one object on both sides) gave {out!r}, expected {tag}(a, a) for a = {M.text(ma)[:200]}")
+        kids = (out.value._inners if tag in M.NARY else [out.value._left, out.value._right])
+        if kids[0] is not a or kids[1] is not a:
+            raise violation(ID, "operators", f"op-same-object-copies:{sym}", case, f"a {sym} a does not hold the operand object itself")
+    stats.count("same-object-operator-sets")
     neg = lib.call(lambda: -a)
     if neg.kind != lib.EXPR or M.canon(to_model(neg.value)) != M.canon(("Negation", ma)) or neg.value._inner is not a \
             or not (neg.value == sx.Negation(fresh(ma))):
@@ -141,7 +152,8 @@ def make_ops(stats):
 
 def exponents():
     return st.one_of(
-        st.integers(-5, 40), st.integers(1, 10 ** 6),
+        st.integers(-5, 40), st.integers(1, 10 ** 6), st.integers(2 ** 52, 2 ** 70), st.integers(1, 10 ** 40),
+        st.sampled_from([2 ** 53 + 1, 2 ** 63 - 1, 2 ** 63, 10 ** 23, 10 ** 400, -(10 ** 30), 2 ** 1024]),
         st.integers(-5, 40).map(float),
         st.floats(min_value=-10, max_value=40, allow_nan=False),
         st.sampled_from([0, 0.0, -0.0, 1, 1.0, 2.0, 2.5, 0.5, 1.0000000000000002, 0.9999999999999999, math.nan, math.inf,
